@@ -186,16 +186,21 @@ def prune_cache(keep=2):
     """Drop fact directories of older tree hashes (disk hygiene)."""
     if not os.path.isdir(CACHE):
         return
+    def mtime(d):
+        try:
+            return os.path.getmtime(d)
+        except OSError:          # removed meanwhile by a concurrent run
+            return 0.0
     ds = [os.path.join(CACHE, d) for d in os.listdir(CACHE) if d != "c17"]
-    ds = [d for d in ds if os.path.isdir(d)]
-    ds.sort(key=lambda d: os.path.getmtime(d), reverse=True)
+    ds = [(mtime(d), d) for d in ds if os.path.isdir(d)]
+    ds.sort(reverse=True)
     cur = tree_hash()[:16]
     n = 0
-    for d in ds:
+    for mt, d in ds:
         if os.path.basename(d) == cur:
             continue
         n += 1
-        if n >= keep and time.time() - os.path.getmtime(d) > 1800:      # a recent directory may belong to a concurrent run on another tree
+        if n >= keep and time.time() - mt > 1800:      # a recent directory may belong to a concurrent run on another tree
             subprocess.run(["rm", "-rf", d])
 
 
